@@ -90,6 +90,12 @@ func (d *driver) triage(cache string, deflt string) (string, []string) {
 	if bad := d.w.partialTarUnderFinalName(es); len(bad) > 0 {
 		return "partial-tar-under-final-name", bad
 	}
+	// transient form of the same mechanism: some process of this experiment went
+	// through PackageData's in-place rebuild (hook evidence) while others were
+	// running; by now the file is complete, so the listing no longer shows it
+	if b, err := os.ReadFile(cache + ".hooks"); err == nil && strings.Contains(string(b), " rebuild.created\n") {
+		return "read-during-in-place-tar-rebuild", []string{"a process of this experiment hit rebuild.created"}
+	}
 	return deflt, nil
 }
 
@@ -218,7 +224,7 @@ func (d *driver) stageListing() {
 				wg.Add(1)
 				go func(i int) {
 					defer wg.Done()
-					outs[i] = d.w.run(runSpec{Cache: c, Pkgs: pk})
+					outs[i] = d.w.run(runSpec{Cache: c, Pkgs: pk, Trace: c + ".hooks"})
 				}(i)
 			}
 			wg.Wait()
@@ -572,8 +578,8 @@ func (d *driver) stageRandomKills() {
 				var wg sync.WaitGroup
 				var other runOut
 				wg.Add(1)
-				go func() { defer wg.Done(); other = d.w.run(runSpec{Cache: cache, Pkgs: pk}) }()
-				d.w.run(runSpec{Cache: cache, Pkgs: pk, CrashAt: h})
+				go func() { defer wg.Done(); other = d.w.run(runSpec{Cache: cache, Pkgs: pk, Trace: cache + ".hooks"}) }()
+				d.w.run(runSpec{Cache: cache, Pkgs: pk, CrashAt: h, Trace: cache + ".hooks"})
 				wg.Wait()
 				d.checkBuild("random-kills (concurrent survivor)", 0, pk, cache, other, map[string]any{"exp": "random-kills", "round": round, "hooks": hooks})
 			} else {
